@@ -9,6 +9,8 @@ mod span_ev;
 mod entry_ev;
 mod depth_ev;
 mod hist_ev;
+mod sdm;
+mod serde_ev;
 
 use std::collections::HashMap;
 
@@ -68,6 +70,7 @@ fn real_main() {
         "depth-events" => depth_ev::depth_events(&args),
         "hist-events" => hist_ev::hist_events(&args),
         "gen-hist" => hist_ev::gen_hist(&args),
+        "serde-events" => serde_ev::serde_events(&args),
         _ => {
             eprintln!("unknown command {cmd:?}");
             std::process::exit(2);
